@@ -22,12 +22,12 @@ def check_case(ctx, cs):
     small = {"deg": sh0["deg"], "kv": sh0["kv"], "rat": sh0["rat"], "hist": hist}
     ctx.count(c04.hist_key(cs), sample={"sh0": {k: sh0[k] for k in ("deg", "kv", "size", "rat")}, "hist": hist, "expected_kv": exp["kv"]})
     tg0 = tg
-    for via in ("operations", "method", "tiny", "huge", "alt"):
-        site = ("%s." % KIND[len(sh0["deg"])].capitalize() if via == "method" else "operations.") + "remove_knot"
+    for via in ("operations", "method", "tiny", "huge", "alt", "alt_method"):
+        site = ("%s." % KIND[len(sh0["deg"])].capitalize() if via in ("method", "alt_method") else "operations.") + "remove_knot"
         conj = {"tiny": 2.0 ** -40, "huge": 2.0 ** 20}.get(via)      # (the same history in a very small / very large unit)
-        tg = tg0 + (["coordinates=" + via] if conj is not None else []) + (["tuples_and_ints"] if via == "alt" else [])
+        tg = tg0 + (["coordinates=" + via] if conj is not None else []) + (["tuples_and_ints"] if via.startswith("alt") else [])
         try:
-            obj, infos = replay_history(sh0, hist, "operations" if via in ("tiny", "huge", "alt") else via, conj=conj, alt_repr=(via == "alt"))
+            obj, infos = replay_history(sh0, hist, "method" if via in ("method", "alt_method") else "operations", conj=conj, alt_repr=via.startswith("alt"))
         except Exception as e:
             ctx.violate(site, tg + ["raises"], small, {"exception": repr(e)[:300]})
             continue
